@@ -4,9 +4,12 @@ from pathlib import Path
 HERE = Path(__file__).resolve().parent
 PY = '/venv/bin/python'
 props = [json.loads(l) for l in open(HERE / 'properties.jsonl')]
+# only properties listed in claimed.json (validated on the unchanged tree over several seeds, both tiers) are claimed
+VALIDATED = set(json.loads((HERE / 'claimed.json').read_text()))
 claimed = {}
 for f in sorted((HERE / 'vf' / 'props').glob('c[0-9][0-9].py')):
-    claimed[f.stem.upper()] = True
+    if f.stem.upper() in VALIDATED:
+        claimed[f.stem.upper()] = True
 SKIP = set(os.environ.get('VF_SKIP', '').split(',')) - {''}
 NATIVE = {'C02', 'C03', 'C17'}
 LEVEL_TEXT = json.loads((HERE / 'manifest_levels.json').read_text()) if (HERE / 'manifest_levels.json').exists() else {}
